@@ -170,7 +170,7 @@ def oracle(script, impl, stderr="", faulted=()):
         if bad and len(bad) > 12:
             break
     end = impl[-1]
-    m = re.match(r"end io=(\d+) openleft=(\d+) stray=(\d+) leaks=(\d+)$", end)
+    m = re.match(r"end io=(\d+) openleft=(\d+) stray=(\d+) leaks=(\d+)( kinds=\S+)?$", end)
     if not m:
         bad.append(("no end line: %r" % end, None))
     else:
@@ -307,7 +307,7 @@ def canon_impl(raw):
     if raw.startswith("out "):
         return "out " + raw.split()[1]
     if raw.startswith("end "):
-        return re.sub(r"io=\d+ ", "", raw)
+        return re.sub(r" kinds=\S+", "", re.sub(r"io=\d+ ", "", raw))
     return raw
 
 
@@ -471,9 +471,30 @@ def run(ctx):
             k = l.split()[0] if l.split() else ""
             if k in ("end", ""): continue
             dist["ops"][k] = dist["ops"].get(k, 0) + 1
-        for raw in impl:
+        tail = [l.split()[0] for l in script.splitlines() if l.split() and l.split()[0] in ("pump", "shutdown", "cleanup")][-3:]
+        key = "+".join(tail) or "none"
+        dist["endings"][key] = dist["endings"].get(key, 0) + 1
+        tp = dist["teardown_paths"]
+        def bump(k, n=1):
+            if n: tp[k] = tp.get(k, 0) + n
+        ops = [l for l in script.splitlines() if l and not l.startswith(("end", "#"))]
+        for op, raw in zip(ops, impl):
             for m in re.finditer(r"fault c\d+ (\w+)", raw):
                 dist["fault_calls"][m.group(1)] = dist["fault_calls"].get(m.group(1), 0) + 1
+            if " | " not in raw: continue
+            ev = raw.split(" | ")[0]
+            ng = ev.count("gone c")
+            t = op.split()[0]
+            if t == "conn":
+                bump("early-exit (no hook)", 1 if ("ret" in ev and "null" in ev and "hook" not in ev) else 0)
+                bump("refused by hook", 1 if "refuse" in ev else 0)
+            elif t in ("shutdown", "cleanup", "refuse"): bump(t, ng)
+            elif t in ("closepeer", "resetpeer"): bump("peer close/reset", ng)
+            elif t in ("junk", "partial"): bump("protocol error / timeout", ng)
+            elif t == "init" and op.endswith(" 0"): bump("non-shared replacement (+self)", ng)
+            elif "fault" in ev: bump("I/O fault", ng)
+            elif t == "key": bump("closed from callback", ng)
+            else: bump("reaped later (app close, kick, queued)", ng)
 
     def absorb(script, r):
         nonlocal evals
@@ -511,14 +532,14 @@ def run(ctx):
             sc = open(p).read()
             absorb(sc, check_script(ctx, h, d, sc, variant, "corpus " + os.path.basename(p)))
         # random life-cycle scripts
-        n = 260 if ctx.tier == "quick" else 2500
+        n = 180 if ctx.tier == "quick" else 2500
         scripts = [Gen(ctx.rng, variant).script(ctx.rng.choice([8, 15, 30, 50])) for _ in range(n)]
         for sc, r in zip(scripts, common.pmap(lambda s: check_script(ctx, h, d, s, variant, "life-cycle"), scripts)):
             absorb(sc, r)
             if len(samples) < 3: samples.append({"script": sc.splitlines(), "impl": r["impl"]})
         # fault enumeration
         bases = list(scenario_scripts(variant).items())
-        nrand = 4 if ctx.tier == "quick" else 30
+        nrand = 3 if ctx.tier == "quick" else 30
         for k in range(nrand):
             bases.append(("random%d" % k, Gen(ctx.rng, variant, faulty=True).script(ctx.rng.choice([15, 30]), ending="sc")))
         jobs, enum = [], {}
@@ -532,8 +553,14 @@ def run(ctx):
                 ks = list(range(nio)) if nio <= 400 else sorted(set(list(range(60)) + ctx.rng.sample(range(nio), 200) + list(range(nio - 40, nio))))
                 kinds = KINDS
             else:
-                per = 14 if name.startswith("random") else 22
-                ks = sorted(set([0, 1, nio - 1] + ctx.rng.sample(range(nio), min(nio, per))))
+                # quick: every write and peek (they end a protocol step: version, security result,
+                # ServerInit, updates, WebSocket answer) up to a cap, plus a sample of the reads
+                mk = re.search(r"kinds=(\S+)", r0["impl"][-1])
+                kk = mk.group(1) if mk else ""
+                wr = [i for i, ch in enumerate(kk) if ch in "wp"]
+                if len(wr) > 18: wr = ctx.rng.sample(wr, 18)
+                per = 8 if name.startswith("random") else 12
+                ks = sorted(set([0, nio - 1] + wr + ctx.rng.sample(range(nio), min(nio, per))))
                 kinds = None
             enum[name] = {"io_calls": nio, "indices": len(ks)}
             for k in ks:
